@@ -58,6 +58,12 @@ CHECKS = {
         note="Trusted base: structural snapshot S (self-tested); payload inside a copied HTMLDependency may be shared (not demanded by the statement).",
         ref="2/C08",
     ),
+    "C09": dict(
+        technique="property-based reference model: Hypothesis forests with tagifiable objects (Tag / TagList of 0-4 / str / HTML / dependency results, nested) rendered by the library vs. the harness's own substitution expand() followed by a plain render; error clause for un-expanded objects",
+        text="Seeded generated-input search against a reference substitution on recipes: html, dependencies, tagify structure, HTMLDocument (content at construction and appended later); raising behaviour of get_html_string on un-expanded objects. Exploration.",
+        note="Trusted base: expand() on recipes, snapshot S, resolver D; Tfy.tagify() returns fully tagified expansions as the protocol requires.",
+        ref="2/C09",
+    ),
 }
 
 PENDING_REASON = "check not built yet in this revision (work in progress; see DESIGN.md section 2 for the planned generator and oracle)"
